@@ -8,10 +8,16 @@ import threading
 import verif
 
 
+def heap(ctx):
+    """JVM heap limit of the family's TLC runs in the quick tier: the runs need 1-2 GB, an unlimited JVM grows to
+    5-6 GB before it collects and is the first victim of the kernel's OOM killer on a loaded machine."""
+    return "3g" if ctx.tier == "quick" else None
+
+
 def emit(ctx, module, cfg, files, timeout=600):
     """Pipeline B: run an Emit module (vectors written by ASSUME ...Serialize at start-up);
     returns ({name: path in the check's scratch dir}, TLCResult)."""
-    r = ctx.tlc(module, cfg, workers=1, timeout=timeout)
+    r = ctx.tlc(module, cfg, workers=1, timeout=timeout, heap=heap(ctx))
     if not r.ok:
         raise verif.Undecided("%s failed (spec problem, not a code verdict):\n%s" % (module, r.out[-3000:]))
     out = {}
@@ -36,7 +42,7 @@ def validate(ctx, module, consts_cfg, trace, name=None, timeout=900):
     not be consumed}, TLCResult)."""
     cfg = consts_cfg + "SPECIFICATION TSpec\nCONSTRAINT HW\nPOSTCONDITION Accepted\nCHECK_DEADLOCK FALSE\n"
     r = ctx.tlc(module, cfg, files={"trace.ndjson": trace}, workers=1, timeout=timeout, xss=True,
-                name=name or module)
+                name=name or module, heap=heap(ctx))
     rejected = {}
     body = r.printed("REJECTED")
     if body:
